@@ -126,7 +126,7 @@ def run_history(kind, subtype, els, steps, rng, quant=True, probes=True):
                     pr.append((int(i), C.Rec('Ok', U.elem_term(kind, U.scalar_to_py(kind, sc)))))
                 except Exception as e:  # noqa: BLE001
                     if orig2 is not None and -n <= i < n and orig2[i] is not None \
-                            and U.is_aei(kind, els[orig2[i]]):
+                            and U.is_aei(kind, els[orig2[i]]) and not isinstance(e, IndexError):
                         out.aei_hit = (f'arr[{i}]', type(e).__name__, str(e)[:120])
                         continue
                     t = U.exc_term(e)
@@ -369,6 +369,24 @@ def coq_codes(cases):
     return outs
 
 
+def describe(kind, steps, out, codes):
+    """readable account of the first disagreement between the kernel-evaluated model and
+    the implementation"""
+    pos = next((j for j, c in enumerate(codes) if c), -1)
+    first = codes[pos] if pos >= 0 else 0
+    if pos <= 0:
+        return f'{kind}: the source array itself: {CODES.get(first, first)}; codes {codes}'
+    try:
+        states = C.coq_eval(IMPORTS, f'model_states {C.coq(out.case[0])} '
+                                     f'{C.coq([o[0] for o in out.case[2]])}')
+    except Exception:  # noqa: BLE001
+        states = '?'
+    impl = out.trace[pos - 1] if pos - 1 < len(out.trace) else '?'
+    return (f'{kind}: step {pos} {steps[pos - 1]}: {CODES.get(first, first)}; the implementation '
+            f'{"returned an array" if impl == "ok" else "raised " + impl}; the model\'s results per '
+            f'step: {states[:400]}; codes {codes}')
+
+
 def fails(kind, subtype, els, steps, rng, need_coq=True):
     """(signature, what) when the history still shows a difference, else None"""
     out = run_history(kind, subtype, els, steps, rng)
@@ -380,7 +398,7 @@ def fails(kind, subtype, els, steps, rng, need_coq=True):
     if bad:
         codes = coq_codes([out.case])[0]
         first = next((c for c in codes if c), 0)
-        return (f'{CODES.get(first, "model")}:{kind}', f'verdict codes {codes}')
+        return (f'{CODES.get(first, "model")}:{kind}', describe(kind, steps, out, codes))
     return None
 
 
@@ -444,10 +462,11 @@ def run(rep):
                 'iteration round trips, arr[i], ~12% invalid requests.  A history is non-trivial when '
                 'at least one step returned a non-empty array; distinct = distinct (kind, subtype, '
                 'elements, steps)')
-    nrand = 1300 if tier == 'quick' else 60000
+    nrand = 1300 if tier == 'quick' else 20000
     hist = []
     for kind, st, els, steps, quant in enumerated(tier):
         hist.append((kind, st, els, steps, quant))
+    n_enum = len(hist)
     subtypes = ['float64'] * 5 + ['float32', 'int32', 'int64', 'int16']
     for j in range(nrand):
         kind = G.KINDS[j % 7]
@@ -455,7 +474,7 @@ def run(rep):
         els, steps = rand_history(rng, kind, st)
         hist.append((kind, st, els, steps, True))
 
-    naei = 45 if tier == 'quick' else 1500
+    naei = 45 if tier == 'quick' else 600
     hist.append(('polygon', 'float64', [[[]]], [{'op': 'copy', 'args': None, 'form': 'copy'}], True))
     hist.append(('multiline', 'float64', [[[], []]], [{'op': 'copy', 'args': None, 'form': 'copy'}], True))
     hist.append(('multipolygon', 'float64', [[[[]]]], [{'op': 'copy', 'args': None, 'form': 'copy'}], True))
@@ -496,7 +515,7 @@ def run(rep):
             cases.append(out.case); expected.append(out.expected); metas.append(meta)
         rep.sample({**meta, 'trace': out.trace}, cap=5)
     rep.extra['index_array_mutated'] = mutated
-    rep.extra['histories_enumerated'] = len(hist) - nrand
+    rep.extra['histories_enumerated'] = n_enum
     rep.extra['histories_random'] = nrand
 
     if aei_first is not None:
@@ -532,7 +551,7 @@ def run(rep):
                                 budget_s=40 if tier == 'quick' else 120)
             f = fails(meta['kind'], meta['subtype'], els, steps, rng)
             if f:
-                what = f'{meta["kind"]}: {f[1]}'
+                what = f[1] if f[1].startswith(meta['kind']) else f'{meta["kind"]}: {f[1]}'
         except Exception as e:  # noqa: BLE001 -- report the unshrunk history
             what += f' (shrinking failed: {type(e).__name__})'
         rep.violation(sig, what, {'kind': meta['kind'], 'subtype': meta['subtype'],
